@@ -244,6 +244,29 @@ func (c *Client) SubResource(subResource string) client.SubResourceClient {
 func (c *Client) Scheme() *runtime.Scheme   { return nil }
 func (c *Client) RESTMapper() meta.RESTMapper { return nil }
 
+// ApplyToStore is an ApplyFn that makes the store follow create / update / delete writes (deep copies).
+func (c *Client) ApplyToStore(w Write) {
+	idx := -1
+	for i, o := range c.Objects {
+		if KindOf(o) == w.Kind && o.GetNamespace() == w.Obj.GetNamespace() && o.GetName() == w.Obj.GetName() {
+			idx = i
+		}
+	}
+	switch w.Verb {
+	case "create", "update":
+		cp := w.Obj.DeepCopyObject().(client.Object)
+		if idx >= 0 {
+			c.Objects[idx] = cp
+		} else {
+			c.Objects = append(c.Objects, cp)
+		}
+	case "delete":
+		if idx >= 0 {
+			c.Objects = append(c.Objects[:idx:idx], c.Objects[idx+1:]...)
+		}
+	}
+}
+
 // Writes returns the logged writes of the given verb prefix and kind ("" = any).
 func (c *Client) Writes(verb, kind string) []Write {
 	var out []Write
